@@ -30,10 +30,14 @@ impl ECDSA {
 //@fn ECDSA::sign_digest_bytes_deterministic_k
 //@fn ECDSA::sign_preimage_random_k
 //@fn ECDSA::sign_with_k_impl
+//@wrapper ECDSA::sign_with_k @ src/ecdsa/sign.rs = ECDSA::sign_with_k_impl
 //@fn ECDSA::sign_digest_with_deterministic_k_impl
 //@fn ECDSA::sign_with_deterministic_k_impl
+//@wrapper ECDSA::sign_with_deterministic_k @ src/ecdsa/sign.rs = ECDSA::sign_with_deterministic_k_impl
 //@fn ECDSA::sign_with_random_k_impl
+//@wrapper ECDSA::sign_with_random_k @ src/ecdsa/sign.rs = ECDSA::sign_with_random_k_impl
 //@fn ECDSA::verify_digest_impl
+//@wrapper ECDSA::verify_digest @ src/ecdsa/verify.rs = ECDSA::verify_digest_impl
 //@fn ECDSA::verify_hashbuf_impl
 //@fn ECDSA::verify_hashbuf
 //@fn ECDSA::sign_digest_with_deterministic_k
@@ -41,6 +45,7 @@ impl ECDSA {
 pub struct ECDH {}
 impl ECDH {
 //@fn ECDH::derive_shared_key_impl
+//@wrapper ECDH::derive_shared_key @ src/ecdsa/ecdh.rs = ECDH::derive_shared_key_impl
 }
 // ---- property-level lemmas over the contracts above ----
 // Every signer returns ecdsa_sign(d, k, z) with z = reduce_be(selected digest), exactly the z of verify_digest_impl /
